@@ -10,7 +10,9 @@ RULE = ("K: real run_fdtd runs on a 4x4x4..5x4x4 periodic box with a pulsed dipo
         "PhasorPoyntingFluxDetector (plane) and a ClosedSurfacePhasorPoyntingFluxDetector (box, incl. size-one axes), each "
         "with random frequencies (1-3), scaling mode, dft_subsample (1..4 or 'auto'), apodization (none / GaussianWindow / "
         "TukeyWindow alpha in {0, .5, 1, random}) and a random valid OnOffSwitch; the seeded scene of every run also has "
-        "plane detectors with keep_all_components=True in all of {continuous, pulse} x {+, -}; next to each an always-on FieldDetector on "
+        "plane detectors with keep_all_components=True in all of {continuous, pulse} x {+, -}; the second scene of every run is on "
+        "a NON-UNIFORM RectilinearGrid (4x5x4, all widths different) with y- and z-normal plane detectors (scalar and keep_all) "
+        "and a box, against own per-cell face areas; next to each an always-on FieldDetector on "
         "the same cells (same interpolation flag). Independent oracle (numpy): scale * sum_t w(t) field(t) exp(i w t) from "
         "the FieldDetector history, own window formulas, own thinning; phasor fluxes from numpy cross products. Compared "
         "to 1e-9 of the largest entry with the implementation's state / compute_poynting_flux / compute_net_flux. The "
@@ -95,21 +97,60 @@ def resolve_stride(sub, freqs, dt):
     return max(1, int(sub))
 
 
-def region_constraints(obj, region):
+def region_constraints(obj, region, widths=None):
     lo = tuple(r[0] for r in region)
     hi = tuple(r[1] for r in region)
+    if widths is not None:      # index-space constraints are rejected on non-uniform grids: use the physical edges
+        fd = M()["fdtdx"]
+        edges = [np.concatenate([[0.0], np.cumsum(np.asarray(w, dtype=np.float64) * RES)]) for w in widths]
+        return [fd.RealCoordinateConstraint(object=obj.name, axes=(0, 1, 2), sides=("-", "-", "-"),
+                                            coordinates=tuple(float(edges[a][lo[a]]) for a in range(3))),
+                fd.RealCoordinateConstraint(object=obj.name, axes=(0, 1, 2), sides=("+", "+", "+"),
+                                            coordinates=tuple(float(edges[a][hi[a]]) for a in range(3)))]
     return [obj.set_grid_coordinates(axes=(0, 1, 2), sides=("-", "-", "-"), coordinates=lo),
             obj.set_grid_coordinates(axes=(0, 1, 2), sides=("+", "+", "+"), coordinates=hi)]
+
+
+def grid_of(sc):
+    """UniformGrid, or a non-uniform RectilinearGrid when the scene gives cell widths (in units of RES) per axis"""
+    m = M()
+    fd, jnp = m["fdtdx"], m["jnp"]
+    if sc.get("widths") is None:
+        return fd.UniformGrid(spacing=RES)
+    edges = [jnp.asarray(np.concatenate([[0.0], np.cumsum(np.asarray(w, dtype=np.float64) * RES)])) for w in sc["widths"]]
+    return fd.RectilinearGrid(x_edges=edges[0], y_edges=edges[1], z_edges=edges[2])
+
+
+def dt_of(sc):
+    m = M()
+    if sc.get("widths") is None:
+        return c14.scene_dt()
+    return float(m["fdtdx"].SimulationConfig(time=1e-13, grid=grid_of(sc), dtype=m["jnp"].float64, backend="cpu").time_step_duration)
+
+
+def face_areas(sc, region, axis):
+    """own per-cell face areas (normal `axis`) over `region`, broadcastable to the region's cell array"""
+    w = sc.get("widths") or [[1.0] * n for n in sc["shape"]]
+    ws = [np.asarray(w[a][region[a][0]:region[a][1]], dtype=np.float64) * RES for a in range(3)]
+    shp = [1, 1, 1]
+    out = np.ones((1, 1, 1))
+    for a in range(3):
+        if a != axis:
+            sh = [1, 1, 1]
+            sh[a] = len(ws[a])
+            out = out * ws[a].reshape(sh)
+    return out
 
 
 def build(sc):
     m = M()
     fd, jnp, jax = m["fdtdx"], m["jnp"], m["jax"]
     T, shape = sc["T"], sc["shape"]
-    grid = fd.UniformGrid(spacing=RES)
-    dt = c14.scene_dt()
+    grid = grid_of(sc)
+    dt = dt_of(sc)
     cfg = fd.SimulationConfig(time=(T + 0.01) * dt, grid=grid, dtype=jnp.float64, backend="cpu")
-    vol = fd.SimulationVolume(partial_real_shape=tuple(n * RES for n in shape))
+    vol = (fd.SimulationVolume(partial_real_shape=tuple(n * RES for n in shape)) if sc.get("widths") is None
+           else fd.SimulationVolume(partial_grid_shape=tuple(shape)))
     objs, cons = [vol], []
     bd, bc = fd.boundary_objects_from_config(fd.BoundaryConfig.from_uniform_bound(boundary_type="periodic"), vol)
     objs += list(bd.values())
@@ -119,7 +160,7 @@ def build(sc):
     src = fd.PointDipoleSource(name="src", partial_grid_shape=(1, 1, 1), wave_character=wc, polarization=sc["pol"],
                                temporal_profile=prof, azimuth_angle=20.0, elevation_angle=35.0)
     objs.append(src)
-    cons += region_constraints(src, [(1, 2), (2, 3), (1, 2)])
+    cons += region_constraints(src, [(1, 2), (2, 3), (1, 2)], sc.get("widths"))
     for i, d in enumerate(sc["dets"]):
         common = dict(name=f"p{i}", dtype=jnp.complex128, exact_interpolation=sc["exact"], switch=c14.switch_of(d["switch"]),
                       wave_characters=tuple(fd.WaveCharacter(frequency=f) for f in d["freqs"]), scaling_mode=d["mode"],
@@ -133,10 +174,12 @@ def build(sc):
             o = fd.ClosedSurfacePhasorPoyntingFluxDetector(orientation=d["orientation"], axes=None if d["axes"] is None else tuple(d["axes"]), **common)
         h = fd.FieldDetector(name=f"h{i}", dtype=jnp.float64, exact_interpolation=sc["exact"], plot=False)
         objs += [o, h]
-        cons += region_constraints(o, d["region"]) + region_constraints(h, d["region"])
+        cons += region_constraints(o, d["region"], sc.get("widths")) + region_constraints(h, d["region"], sc.get("widths"))
     key = jax.random.PRNGKey(0)
     o, a, p, c, _ = fd.place_objects(object_list=objs, config=cfg, constraints=cons, key=key)
     a, o, _ = fd.apply_params(a, o, p, key)
+    for i, d in enumerate(sc["dets"]):
+        assert tuple(tuple(r) for r in o[f"p{i}"].grid_slice_tuple) == tuple(tuple(r) for r in d["region"]), "placement"
     return o, a, c
 
 
@@ -209,8 +252,11 @@ def run_scene(ctx, sc, check_model=True):
             pv = oracle_poynting(exp)
             if d["direction"] == "-":
                 pv = -pv
-            area = RES * RES
-            flux = (pv * area).sum(axis=(2, 3, 4)) if d["keep_all"] else (pv[:, axis] * area).sum(axis=(1, 2, 3))
+            if d["keep_all"]:
+                area3 = np.stack([np.broadcast_to(face_areas(sc, d["region"], ax), shape) for ax in range(3)])
+                flux = (pv * area3[None]).sum(axis=(2, 3, 4))
+            else:
+                flux = (pv[:, axis] * face_areas(sc, d["region"], axis)[None]).sum(axis=(1, 2, 3))
             if d["mode"] == "continuous":
                 flux = 0.5 * flux
             gotf = np.asarray(det.compute_poynting_flux({k: jnp.asarray(v) for k, v in state.items()}))
@@ -232,7 +278,7 @@ def run_scene(ctx, sc, check_model=True):
                         detail = (f"closed-surface detector p{i}: stored face axis{ax}_{side} differs from the windowed DFT "
                                   f"of the history on the same cells: max |diff| {maxdiff(got, e_face):.3e} of "
                                   f"{nz:.3e} ({describe(d, stride)})")
-                    net += sign * (oracle_poynting(e_face)[:, ax] * RES * RES).sum(axis=(1, 2, 3))
+                    net += sign * (oracle_poynting(e_face)[:, ax] * face_areas(sc, d["region"], ax)[None]).sum(axis=(1, 2, 3))
             if d["orientation"] == "inward":
                 net = -net
             if d["mode"] == "continuous":
@@ -444,6 +490,27 @@ def seed_scene():
                                              ("pulse", "+", [(0, 4), (1, 2), (1, 4)]))]}
 
 
+def nonuniform_scene():
+    """non-uniform RectilinearGrid: y- and z-normal plane phasor Poynting detectors (scalar and keep_all) and a box —
+    the per-cell face areas differ per normal axis, so a wrong normal axis in the cached weights shows"""
+    sc = {"T": 14, "shape": [4, 5, 4], "pol": 1, "exact": False, "seed": 11,
+          "widths": [[1.0, 1.6, 0.8, 1.2], [0.7, 1.0, 1.5, 1.0, 1.3], [1.4, 0.9, 1.0, 0.6]]}
+    dt = dt_of(sc)
+    T = sc["T"]
+    f0 = C0 / (8 * RES)
+    win = {"kind": "tukey", "start": -0.5 * dt, "end": 13.5 * dt, "alpha": 0.4}
+    base = {"kind": "plane", "switch": c14.mk_case(T, dt), "sub": 1, "freqs": [f0, 0.5 * f0], "fixed_axis": None}
+    sc["dets"] = [
+        dict(base, mode="continuous", win=None, direction="+", keep_all=False, region=[(0, 4), (2, 3), (0, 4)]),
+        dict(base, mode="pulse", win=win, direction="-", keep_all=False, region=[(0, 4), (0, 5), (1, 2)],
+             switch=c14.mk_case(T, dt, st=1 * dt)),
+        dict(base, mode="continuous", win=win, direction="-", keep_all=True, region=[(0, 4), (3, 4), (0, 4)]),
+        dict(base, mode="continuous", win=None, direction="+", keep_all=True, region=[(0, 4), (0, 5), (3, 4)], sub=2),
+        {"kind": "closed", "switch": c14.mk_case(T, dt), "sub": 1, "freqs": [f0], "mode": "continuous", "win": None,
+         "orientation": "outward", "axes": None, "region": [(0, 3), (1, 4), (1, 3)]}]
+    return sc
+
+
 # ------------------------------------------------------------------------------------ small exact pieces
 def check_thinning(ctx):
     """PhasorDetector._calculate_on_list on every on-list of length <= Lmax × strides, _resolve_dft_stride"""
@@ -579,7 +646,7 @@ def run(ctx):
         if d:
             ctx.violation({"kind": "direct", "seed": seed}, d)
     for i in range(ctx.scale(3, 30)):
-        sc = seed_scene() if i == 0 else random_scene(ctx.rng, i)
+        sc = seed_scene() if i == 0 else nonuniform_scene() if i == 1 else random_scene(ctx.rng, i)
         if i == 0:
             ctx.samples.append({"op": "scene", "scene": sc})
         d = run_scene(ctx, sc)
@@ -599,10 +666,11 @@ def search(ctx, hints):
     check_windows(ctx)
     if ctx.violations:
         return
-    d = run_scene(ctx, seed_scene(), check_model=False)
-    if d:
-        ctx.violation({"kind": "scene", "scene": seed_scene()}, d)
-        return
+    for sc in (seed_scene(), nonuniform_scene()):
+        d = run_scene(ctx, sc, check_model=False)
+        if d:
+            ctx.violation({"kind": "scene", "scene": sc}, d)
+            return
     for seed in range(6):
         d = direct_update_case(ctx, seed, check_model=False)
         if d:
